@@ -909,10 +909,12 @@ func main() {
 			// renderRun turns this into a final dump that no model run produces
 		}
 		kind := in.Stream
+		// label: did a coins transaction with a local effect fail (the runs that exercise the
+		// receipt test of Coins.ExecLocal / callLocal)
 		if out.Guarded {
-			kind = "guarded/" + kind
+			kind = "allok/" + kind
 		} else {
-			kind = "unguarded/" + kind
+			kind = "failed/" + kind
 		}
 		ntx := 0
 		for _, b := range out.descs {
@@ -937,7 +939,7 @@ func main() {
 	}
 	over := func() bool { return time.Since(start) > budget }
 
-	// the witness of known finding 1 and its guarded twin, first
+	// the witness of the fixed finding 1 (failed self-transfer: the receiver total must not move) and its successful twin, first
 	{
 		nonce := int64(1000)
 		emit(runIn{Stream: "witness-failed-transfer", NAcct: 2, Prefix: [][]txSpec{fundBlock(2, &nonce)},
